@@ -8,7 +8,8 @@
 
    Only statements, each closed by [exact] of a lemma from Proofs/, then Print Assumptions. *)
 From Coq Require Import String List ZArith NArith Bool.
-From Verif Require Import Base.Res Base.Bytes Model.WaitModel Proofs.WaitP.
+From Verif Require Import Base.Res Base.Bytes Gen.GenGetAsInt Gen.GenMeta Gen.GenPartial Model.WaitModel Proofs.WaitP Model.Partial Proofs.PartialP.
+From Verif Require Gen.GenOperators.
 Import ListNotations.
 Open Scope nat_scope.
 
@@ -118,3 +119,115 @@ Example C08_example_mutual_cycle :
   let G := [NFn [1] (fun vs => NVal (1 + fold_left Z.add vs 0)%Z); NFn [0] (fun vs => NVal (1 + fold_left Z.add vs 0)%Z)] in
   match wait py_bound false G (fuel_bound py_bound G) (init_state G) 0 with RRaise ECycle _ => True | _ => False end.
 Proof. vm_compute. exact I. Qed.
+
+(* ---- (2) Python partial operations under the guards the code has now -------------------------------------- *)
+(* C08_no_crash_partial: "partial" because it lists the raising operations of the *modelled* sites (those that take
+   a value computed from the input), not of the whole program; what is missing is the parser's and the statement
+   compiler's control flow around them (explored, not proved).  Every statement is over unbounded Z / lists of any
+   length; the bodies of the operators, of .align/.even/.odd and of get_as_int are the regenerated Gen definitions. *)
+Open Scope Z_scope.
+
+(* x % c in .align (c = 0 is reported), .even, .odd *)
+Theorem C08_align_no_crash : forall addr count s, body_align addr count <> Crash s.
+Proof. exact align_no_crash. Qed.
+Print Assumptions C08_align_no_crash.
+Theorem C08_even_odd_no_crash : forall addr s, body_even addr <> Crash s /\ body_odd addr <> Crash s.
+Proof. exact (fun addr s => conj (even_no_crash addr s) (odd_no_crash addr s)). Qed.
+Print Assumptions C08_even_odd_no_crash.
+
+(* a // b and a % b under try/except ZeroDivisionError; 2 ** b and << >> only with a non-negative count *)
+Theorem C08_operators_no_crash :
+  forall a b s,
+    GenOperators.body_div a b <> Crash s /\ GenOperators.body_mod a b <> Crash s /\
+    GenOperators.body_lshift a b <> Crash s /\ GenOperators.body_rshift a b <> Crash s /\
+    GenOperators.body_lsh a b <> Crash s.
+Proof.
+  exact (fun a b s => conj (div_no_crash a b s) (conj (mod_no_crash a b s) (conj (lshift_no_crash a b s)
+          (conj (rshift_no_crash a b s) (lsh_no_crash a b s))))).
+Qed.
+Print Assumptions C08_operators_no_crash.
+
+(* struct.pack("<H"/"<B") always gets a value in range: after get_as_int with the directive's typing, after
+   `% 2**16` for relative operands, after the default 0 of `.ascii <n>` *)
+Theorem C08_pack_no_crash :
+  forall v s,
+    pack_word v <> Crash s /\ pack_byte v <> Crash s /\ pack_dword v <> Crash s /\
+    ascii_chunk v <> Crash s /\ pack_relative v <> Crash s.
+Proof.
+  exact (fun v s => conj (pack_word_no_crash v s) (conj (pack_byte_no_crash v s) (conj (pack_dword_no_crash v s)
+          (conj (ascii_chunk_no_crash v s) (pack_relative_no_crash v s))))).
+Qed.
+Print Assumptions C08_pack_no_crash.
+Theorem C08_data_typing : typing_ok = true.
+Proof. exact typing_ok_true. Qed.
+Print Assumptions C08_data_typing.
+Theorem C08_get_as_int_no_crash :
+  forall bitness unsigned default v s,
+    (match bitness with Some n => 0 <= n | None => True end) -> get_as_int bitness unsigned default v <> Crash s.
+Proof. exact gai_no_crash. Qed.
+Print Assumptions C08_get_as_int_no_crash.
+
+(* chr(code) in a '<n>' chunk: both exception classes chr can raise are caught (every integer, no bound) *)
+Theorem C08_chr_no_crash : forall code s, site_chr code <> Crash s.
+Proof. exact site_chr_no_crash. Qed.
+Print Assumptions C08_chr_no_crash.
+
+(* TABLE.index: in .rad50 inside try/except ValueError, whatever str.upper() returned ... *)
+Theorem C08_rad50_char_no_crash : forall (u : list N) s, site_rad50_char u <> Crash s.
+Proof. exact site_rad50_char_no_crash. Qed.
+Print Assumptions C08_rad50_char_no_crash.
+(* ... and after ^R only on characters the (case-sensitive, explicitly listed) regex admits *)
+Theorem C08_rad50_literal_no_crash :
+  forall (chars : list N) s,
+    Forall (fun c => nmem c rad50_literal_class = true) chars -> rad50_literal chars <> Crash s.
+Proof. exact rad50_literal_no_crash. Qed.
+Print Assumptions C08_rad50_literal_no_crash.
+
+(* int(num, base): after ^X ^O ^B ^D on the digits their regex class admits; bare numbers under isdigit() and,
+   for base 8, after the 8/9 branch returned; 0x.. in try/except ValueError; \xHH on two characters of its class
+   (and chr of the result is in range) *)
+Theorem C08_prefixed_number_no_crash :
+  forall prefix cls base (digits : list N) s,
+    In (prefix, cls, base) radix_classes -> digits <> [] -> Forall (fun c => In c cls) digits ->
+    py_int digits base <> Crash s.
+Proof. exact prefixed_number_no_crash. Qed.
+Print Assumptions C08_prefixed_number_no_crash.
+Theorem C08_bare_number_no_crash :
+  forall num s,
+    (decimal_guard num = true -> site_bare_decimal num <> Crash s) /\
+    (octal_guard num = true -> site_bare_octal num <> Crash s).
+Proof. exact (fun num s => conj (bare_decimal_no_crash num s) (bare_octal_no_crash num s)). Qed.
+Print Assumptions C08_bare_number_no_crash.
+Theorem C08_lexer_digits_are_ascii : forallb (fun c => (c <? 128)%N) local_symbol_class = true.
+Proof. exact local_symbol_class_ascii. Qed.
+Print Assumptions C08_lexer_digits_are_ascii.
+Theorem C08_c_style_number_no_crash : forall digits base s, site_c_style digits base <> Crash s.
+Proof. exact c_style_no_crash. Qed.
+Print Assumptions C08_c_style_number_no_crash.
+Theorem C08_hex_escape_no_crash :
+  forall a b, In a hex_escape_class -> In b hex_escape_class ->
+    exists z c, py_int [a; b] 16 = Ok z /\ py_chr z = Ok c.
+Proof. exact hex_escape_no_crash. Qed.
+Print Assumptions C08_hex_escape_no_crash.
+
+(* {"s": "first", "d": "second"}[pattern_char]: the stubs are only constructed with letters that are keys *)
+Theorem C08_pattern_letter_lookup_no_crash :
+  forall c s,
+    (In c reg_stub_chars -> dict_lookup reg_stub_keys c <> Crash s) /\
+    (In c acc_stub_chars -> dict_lookup acc_stub_keys c <> Crash s).
+Proof. exact (fun c s => conj (reg_lookup_no_crash c s) (acc_lookup_no_crash c s)). Qed.
+Print Assumptions C08_pattern_letter_lookup_no_crash.
+
+(* the guards are not vacuous, and without them the operations do raise in the model *)
+Example C08_align_zero_reported : body_align 5 0 = Err ["value-out-of-bounds"%string].
+Proof. vm_compute. reflexivity. Qed.
+Example C08_unguarded_mod_raises : GenGetAsInt.py_mod 5 0 = Crash "ZeroDivisionError".
+Proof. vm_compute. reflexivity. Qed.
+Example C08_word_out_of_range_reported : pack_word 65536 = Err ["value-out-of-bounds"%string] /\ pack_H 65536 = Crash "struct.pack(<H)".
+Proof. vm_compute. split; reflexivity. Qed.
+Example C08_chr_huge_reported : site_chr (2 ^ 64) = Err ["value-out-of-bounds"%string] /\ py_chr (2 ^ 64) = Crash "OverflowError".
+Proof. vm_compute. split; reflexivity. Qed.
+Example C08_octal_guard_needed : py_int [49%N; 56%N] 8 = Crash "ValueError" /\ octal_guard [49%N; 56%N] = false /\ octal_guard [49%N; 55%N] = true.
+Proof. vm_compute. repeat split; reflexivity. Qed.
+Example C08_kelvin_not_admitted : nmem 8490%N rad50_literal_class = false /\ table_index 8490%N = Crash "ValueError".
+Proof. vm_compute. split; reflexivity. Qed.
